@@ -294,6 +294,7 @@ async fn connect(desc: Arc<PortDescriptor>) -> Result<(tokio::net::TcpStream, to
 async fn talk(client: &mut tokio::net::TcpStream, data: &[u8], chunks: Vec<usize>, read_response: bool) -> Vec<u8> {
     use tokio::io::{AsyncReadExt, AsyncWriteExt};
     let mut off = 0;
+    let scheduled = !chunks.is_empty();
     let mut sched = chunks.into_iter();
     // a failed write means the server already closed
     while off < data.len() {
@@ -303,7 +304,12 @@ async fn talk(client: &mut tokio::net::TcpStream, data: &[u8], chunks: Vec<usize
         }
         let _ = client.flush().await;
         off += n;
-        tokio::task::yield_now().await;
+        if scheduled && off < data.len() {
+            // lets the server see the segments one by one (which reads they end up in decides only what is covered, never a verdict)
+            tokio::time::sleep(Duration::from_millis(2)).await;
+        } else {
+            tokio::task::yield_now().await;
+        }
     }
     let _ = client.shutdown().await;
     let mut got = Vec::new();
